@@ -58,7 +58,7 @@ func (t Type) IsValidAsEndInRangeLiteral() bool {
 	switch t {
 	case SCOPE_RES_OP, BANG, TILDE, LBRACE, LPAREN, LBRACKET, DOLLAR_IDENTIFIER, PUBLIC_IDENTIFIER, PRIVATE_IDENTIFIER,
 		PUBLIC_CONSTANT, PRIVATE_CONSTANT, INSTANCE_VARIABLE,
-		RAW_STRING, STRING_BEG, CHAR_LITERAL, RAW_CHAR_LITERAL, FLOAT, FLOAT32, FLOAT64,
+		RAW_STRING, STRING_BEG, CHAR_LITERAL, RAW_CHAR_LITERAL, FLOAT, BIG_FLOAT, FLOAT32, FLOAT64,
 		NIL, FALSE, TRUE, LOOP, ENUM,
 		VAR, VAL, CONST, DO, SELF, SUPER, SWITCH, SELECT, MINUS, PLUS:
 		return true
